@@ -123,7 +123,7 @@ class CallMixin:
                 if r and r[-1] is None:
                     return r[:-1]
                 outs.extend(r)
-                st.emit("MR", name, site)
+                st.emit("MR", name + ":" + vrepr(recv), site)
             val = plain_args[-1] if plain_args else None
             self.w_event(st, "method:" + name, recv, ",".join(vrepr(a_) for a_ in plain_args), val, site)
             if name in ("pop", "popitem", "setdefault"):
